@@ -45,7 +45,8 @@ class Grammar:
     lark_kwargs: Dict[str, object]
     parser_var: str
     lark_call: ast.Call
-    grammar_assign: ast.stmt
+    grammar_assign: ast.AST
+    discovery: Optional[Dict[str, object]] = None
 
     def rules_of(self, origin: str) -> List[Rule]:
         return sorted([r for r in self.rules if r.origin == origin], key=lambda r: r.order)
@@ -74,48 +75,87 @@ def _const_str(model: SrcModel, mod: Module, expr: ast.expr) -> str:
     raise Unsupported(f"grammar text is not a constant string: {norm(expr)}")
 
 
+PARSE_FUNCS = {COND_MOD: "parse_condition_expression_to_tree", AHB_MOD: "parse_ahb_expression_to_single_requirement_indicator_expressions"}
+
+
+def discover(model: SrcModel, modname: str, fname: Optional[str] = None) -> Dict[str, object]:
+    """Abstract run of the module's parse function on an opaque input string with `lark.Lark(...)` and `<parser>.parse`
+    intercepted: which parser objects were constructed (grammar text and options as *evaluated* values - however the
+    module builds them), which one parsed, with which arguments, and whether the function hands back what it returned."""
+    from .fdai import Interp
+    from .fdvalues import FuncVal, Obj, Opaque, PyRaise, StrT
+
+    fname = fname or PARSE_FUNCS[modname]
+    fn = model.func(f"{modname}.{fname}")
+    it = Interp(model)
+    parsers: List[Dict[str, object]] = []
+    calls: List[Dict[str, object]] = []
+
+    def make_parser(_it, args, kwargs):
+        idx = len(parsers)
+        parsers.append({"grammar": args[0] if args else kwargs.get("grammar"), "kwargs": {k: v for k, v in kwargs.items() if k != "grammar"}, "extra_args": list(args[1:])})
+        return Opaque(f"larkparser#{idx}", kind="lark.Lark", truthy=True, not_none=True)
+
+    sentinel = Obj("lark.Tree", {"data": "vstat_parse_result", "children": []})
+
+    def opaque_call(_it, func, args, kwargs):
+        if func.label.startswith("larkparser#") and func.label.endswith(".parse"):
+            calls.append({"parser": int(func.label[len("larkparser#"):-len(".parse")]), "args": list(args), "kwargs": dict(kwargs)})
+            return sentinel
+        raise Unsupported(f"call of {func.label}")
+
+    it.ext_handlers["lark.Lark"] = make_parser
+    it.ext_handlers["opaque-call"] = opaque_call
+    arg = StrT((Opaque("input"),))
+    try:
+        res = it.call(FuncVal(fn=fn, module=fn.module), [arg], {}, None, None)
+    except PyRaise as err:
+        raise AnalysisError(f"{fn.qualname} raises {err.exc.cls} on a string the Lark parser accepts") from err
+
+    def same(a, b) -> bool:
+        return isinstance(a, Obj) and a.cls == b.cls and a.fields.get("data") == b.fields.get("data") and a.fields.get("children") == b.fields.get("children")
+
+    return {"fn": fn, "arg": arg, "parsers": parsers, "calls": calls, "returns_parse_result": same(res, sentinel), "result": res}
+
+
 def load(model: SrcModel, modname: str) -> Grammar:
-    """Find the module-level `X = Lark(<grammar>, start=..., **kw)` of a module and compile the grammar text."""
+    """The grammar and the Lark options of the parser object the module's parse function uses (found by `discover`;
+    the syntactic form `X = Lark(<grammar>, ...)` is only consulted for positions), compiled by Lark's own front-end."""
     mod = model.module(modname)
-    found = []
+    d = discover(model, modname)
+    used = sorted({c["parser"] for c in d["calls"]})
+    if len(used) != 1:
+        raise AnalysisError(f"{modname}.{PARSE_FUNCS[modname]}: expected one Lark parser object to parse the argument, found {len(used)}")
+    info = d["parsers"][used[0]]
+    text = info["grammar"]
+    if not isinstance(text, str):
+        raise Unsupported(f"{modname}: the grammar passed to Lark() does not evaluate to a literal string: {text!r}")
+    if info["extra_args"]:
+        raise Unsupported(f"{modname}: Lark() with extra positional arguments")
+    kwargs: Dict[str, object] = {}
+    for k, v in info["kwargs"].items():
+        if not (v is None or isinstance(v, (str, int, bool, float)) or (isinstance(v, (list, tuple)) and all(isinstance(x, str) for x in v))):
+            raise Unsupported(f"{modname}: Lark option {k} does not evaluate to a literal: {v!r}")
+        kwargs[k] = v
+    # positions (best effort)
+    var, call, gassign = PARSE_FUNCS[modname], None, None
     for name, sts in mod.assigns.items():
         for st in sts:
             v = st.value
             if isinstance(v, ast.Call) and (dotted(v.func) or "").split(".")[-1] == "Lark":
-                found.append((name, st, v))
-    if len(found) != 1:
-        raise AnalysisError(f"{modname}: expected exactly one module-level Lark(...) parser, found {len(found)}")
-    var, st, call = found[0]
-    if len(mod.assigns[var]) != 1:
-        raise AnalysisError(f"{modname}.{var} is bound more than once")
-    if not call.args:
-        raise AnalysisError(f"{modname}: Lark() call without grammar argument")
-    text = _const_str(model, mod, call.args[0])
-    kwargs: Dict[str, object] = {}
-    for kw in call.keywords:
-        if kw.arg is None:
-            raise Unsupported(f"{modname}: Lark(**kwargs)")
-        if kw.arg == "g_regex_flags":
-            import re as _re
-
-            flags = 0
-            for part in ast.walk(kw.value):
-                if isinstance(part, ast.Attribute) and hasattr(_re, part.attr) and isinstance(getattr(_re, part.attr), int):
-                    flags |= int(getattr(_re, part.attr))
-                elif isinstance(part, ast.Constant) and isinstance(part.value, int):
-                    flags |= part.value
-            kwargs[kw.arg] = flags
-            continue
-        try:
-            kwargs[kw.arg] = ast.literal_eval(kw.value)
-        except ValueError as err:
-            raise Unsupported(f"{modname}: Lark option {kw.arg} is not a literal") from err
+                var, call = name, v
+                if v.args and isinstance(v.args[0], ast.Name) and v.args[0].id in mod.assigns:
+                    gassign = mod.assigns[v.args[0].id][0]
+                gassign = gassign or st
+    fn_node = d["fn"].node
+    if call is None:
+        call = next((n for f_ in mod.functions.values() for n in ast.walk(f_.node) if isinstance(n, ast.Call) and (dotted(n.func) or "").split(".")[-1] == "Lark"), None)
+    if call is None:
+        call = ast.copy_location(ast.Call(func=ast.Name(id="Lark", ctx=ast.Load()), args=[], keywords=[]), fn_node)
+    gassign = gassign or fn_node
     start = kwargs.get("start", "start")
     if not isinstance(start, str):
         raise Unsupported(f"{modname}: several start symbols")
-    gassign = None
-    if isinstance(call.args[0], ast.Name):
-        gassign = mod.assigns[call.args[0].id][0]
     import lark
     from lark.load_grammar import load_grammar
 
@@ -131,7 +171,7 @@ def load(model: SrcModel, modname: str) -> Grammar:
                keep_all_tokens=bool(r.options.keep_all_tokens)) for r in rules]
     tt = {t.name: Terminal(name=t.name, regexp=t.pattern.to_regexp(), priority=t.priority) for t in terms}
     return Grammar(module=mod, text=text, start=start, rules=rr, terminals=tt, ignore=list(ignore), lark_kwargs=kwargs,
-                   parser_var=var, lark_call=call, grammar_assign=gassign or st)
+                   parser_var=var, lark_call=call, grammar_assign=gassign, discovery=d)
 
 
 def effective_options(g: Grammar) -> Dict[str, object]:
